@@ -14,7 +14,8 @@ import Gama.Model.G3Lin
 import Gama.Gen.G3Linearization
 import Gama.Model.G3Parser
 import Gama.Gen.G3ParserSites
-open Gama Gama.Proto Gama.Neu Gama.G3Book Gama.G3Lin
+import Gama.Model.G3Net
+open Gama Gama.Proto Gama.Neu Gama.G3Book Gama.G3Lin Gama.G3Net
 
 structure PtIn where
   name : String
@@ -54,6 +55,12 @@ structure St where
   evs : List (AdjXml.Ev String) := []
   gpts : List (Role × GPt Float) := []
   precs : List (G3Parser.Rec Unit Float) := []
+  adjx : List Float := []
+  adjDefect : Nat := 0
+  adjRtr : Float := 0
+  qxx : List Float := []
+  qn : Nat := 0
+  refApriori : Bool := false
 
 def pstate? : String → Option PState
   | "0" => some .unused | "1" => some .fixed | "2" => some .free | "3" => some .constr | _ => none
@@ -115,44 +122,33 @@ def points (s : St) : Points String := fun n => (s.pts.find? (·.name == n)).map
 def showRow (k : Nat) (r : Row Float) : String :=
   s!"res row {k} {r.length}" ++ String.join (r.map fun (c, i) => s!" {i} {showFloat c}")
 
-def zeroRot : Rot Float := ⟨0, 0, 0, 0, 0, 0, 0, 0, 0⟩
-def zeroPt : GPt Float :=
-  ⟨0, 0, 0, 0, 0, 0, 0, 0, 0, 0, 0, 0, zeroRot, .unused, .unused, .unused, 0, 0, 0⟩
+/-- the point table of the network model (`G3Net.Net`): corrections are zero before the adjustment
+    (`X() = X.init_value()`), the frame is the one `set_xyz / set_blh` stored -/
+def toNPt (p : PtIn) : NPt Float :=
+  { X := p.x, Y := p.y, Z := p.z, X0 := p.x, Y0 := p.y, Z0 := p.z, B := p.b, L := p.l, H := p.h,
+    geoid := p.geoid, dB := p.dB, dL := p.dL, R := transformationMatrix p.b p.l, s := p.s }
 
-/-- the model point the linearisation reads (corrections are zero before the adjustment:
-    `X() = X.init_value()`); `ind` is the member set by `update_index` -/
-def mkPt (s : St) (bk : Book String) (n : String) : Option (GPt Float) := do
-  let p ← s.pts.find? (·.name == n)
-  let ps := p.s.normalise
-  pure { X := p.x, Y := p.y, Z := p.z, X0 := p.x, Y0 := p.y, Z0 := p.z, B := p.b, L := p.l, H := p.h,
-         geoid := p.geoid, dB := p.dB, dL := p.dL, R := transformationMatrix p.b p.l,
-         sN := ps.sN, sE := ps.sE, sU := ps.sU,
-         iN := bk.idx.ind (n, .N), iE := bk.idx.ind (n, .E), iU := bk.idx.ind (n, .U) }
+def netOf (s : St) : Net String Float := ⟨fun n => (s.pts.find? (·.name == n)).map toNPt, s.tol⟩
 
-/-- the generated `Model::linearization(T*)` of the observation's class on the model points -/
-def linOne (s : St) (bk : Book String) (o : ObIn) : Option (LinOut Float) := do
-  let f ← Gama.Gen.G3Lin.byName o.kind
-  let pts ← o.names.mapM fun (r, n) => do pure (r, ← mkPt s bk n)
-  let P : Pts Float := fun r => (pts.lookup r).getD zeroPt
-  pure (evalLin P (f P o.o s.tol))
+def ObIn.toNObs (o : ObIn) : NObs String Float := ⟨o.obs, o.o⟩
 
-/-- one pass of `update_observations` + the linearisation loop over `active_obs`;
-    returns the book, the per-observation results and the new activity flags -/
-def pass (s : St) (act : List Bool) : Book String × List (ObIn × Option (LinOut Float)) × List Bool :=
-  let P := points s
-  let cand := (s.obs.zip act).map fun (o, a) => (o, a && (revision P o.toObs).isSome)
-  let bk := updateObservations P ((cand.filter (·.2)).map (·.1.toObs))
-  let lins := (cand.filter (·.2)).map fun (o, _) => (o, linOne s bk o)
-  let act' := cand.map fun (o, a) =>
-    a && !(match linOne s bk o with | some l => l.rejected | none => false)
-  (bk, lins, act')
+/-- one pass of `update_observations` + the linearisation loop over `active_obs` (`G3Net.bookOf`,
+    `G3Net.netEqs`); returns the book, the project equations and the new activity flags -/
+def pass (s : St) (act : List Bool) : Book String × List (Row Float × Float) × List Bool :=
+  let net := netOf s
+  let cand := (s.obs.zip act).map fun (o, a) => (o, a && (revision net.points o.toObs).isSome)
+  let nobs := (cand.filter (·.2)).map (·.1.toNObs)
+  let bk := bookOf net nobs
+  let eqs := netEqs net nobs
+  let act' := cand.map fun (o, a) => a && !(linObs net bk.idx.ind o.toNObs).rejected
+  (bk, eqs, act')
 
 /-- `do { … } while (!check_observations())` : repeat while an observation was rejected -/
-def passes (s : St) : Nat → List Bool → Book String × List (ObIn × Option (LinOut Float)) × List Bool
+def passes (s : St) : Nat → List Bool → Book String × List (Row Float × Float) × List Bool
   | 0, act => pass s act
   | fuel + 1, act =>
     let (bk, lins, act') := pass s act
-    let settled := ((s.obs.zip act).map fun (o, a) => a && (revision (points s) o.toObs).isSome) == act'
+    let settled := ((s.obs.zip act).map fun (o, a) => a && (revision (netOf s).points o.toObs).isSome) == act'
     if settled then (bk, lins, act') else passes s fuel act'
 
 def showAdj (pfx : String) (d : AdjXml.AdjData Float) : List String :=
@@ -177,7 +173,7 @@ def showEv : AdjXml.Ev String → String
   | .ws => "ev W"
 
 def runModel (s : St) : String :=
-  let P := points s
+  let P := (netOf s).points
   let (bk, lins, act) := passes s s.obs.length (s.obs.map fun _ => true)
   let frames := s.pts.flatMap fun p =>
     let R := transformationMatrix p.b p.l
@@ -187,15 +183,9 @@ def runModel (s : St) : String :=
     [s!"res idx {p.name} {bk.idx.index (isFreePar P) (p.name, .N)} {bk.idx.index (isFreePar P) (p.name, .E)} {bk.idx.index (isFreePar P) (p.name, .U)}"]
   let compName : Comp → String | .N => "N" | .E => "E" | .U => "U"
   let par := "res par" ++ String.join (bk.idx.par.map fun ((n, c), _) => s!" {n}.{compName c}")
-  -- rows and rhs in order
-  let (rowLines, rhsToks, _) := lins.foldl (init := (([] : List String), ([] : List String), 1))
-    fun (ls, rs, k) (o, l) =>
-      match l with
-      | some out =>
-        (ls ++ (out.rows.zipIdx.map fun (r, j) => showRow (k + j) r), rs ++ out.rhs.map showFloat, k + out.rows.length)
-      | none =>
-        let d := o.toObs.dimension
-        (ls ++ (List.range d).map (fun j => s!"res row {k + j} skip"), rs ++ List.replicate d "skip", k + d)
+  -- rows and rhs in matrix order (the project equations of the network model)
+  let rowLines := lins.zipIdx.map fun (e, k) => showRow (k + 1) e.1
+  let rhsToks := lins.map fun e => showFloat e.2
   -- cofactor blocks, cluster by cluster
   let (blks, _) := s.cls.foldl (init := (([] : List String), act)) fun (ls, a) c =>
     let mine := a.take c.nobs
@@ -218,6 +208,28 @@ def runAdjRt (s : St) : String :=
   | .error e => s!"rd throw {repr e}"
   | .ok [d] => "\n".intercalate (showAdj "rd" d ++ (AdjXml.writeAdj codec d).map showEv)
   | .ok ds => s!"rd count {ds.length}"
+
+
+/-- `Model::update_adjustment` + `Model::write_xml_adjustment_results_points` on what the harness read from class
+    `Adj` (`adj`, `qxx`, `ref` lines): statistics and, per point in the order written, what `Point::write_xml` computes -/
+def runResult (s : St) : String :=
+  let net := netOf s
+  let (bk, _, _) := passes s s.obs.length (s.obs.map fun _ => true)
+  let n := s.qn
+  -- upper triangle, row-major: entry (i, j), 1 ≤ i ≤ j ≤ n
+  let q (i j : Nat) : Float :=
+    let (a, b) := if i ≤ j then (i, j) else (j, i)
+    if a = 0 ∨ b > n then 0 else s.qxx.getD ((a - 1) * n - (a - 1) * (a - 2) / 2 + (b - a)) 0
+  let a : AdjOut Float := ⟨fun k => if k = 0 then 0 else s.adjx.getD (k - 1) 0, s.adjDefect, s.adjRtr, q⟩
+  let st := stats bk a s.sd s.refApriori
+  let pts := (pointOrder bk.idx).map fun name =>
+    match reportPoint net bk a st.stdVariance name, net.points name with
+    | some o, some ps =>
+      let fixedPos := ps.sN.isFixed && ps.sE.isFixed && ps.sU.isFixed
+      s!"res pt {name} " ++ renderAll [o.dn, o.de, o.du, o.cx, o.cy, o.cz, o.ax, o.ay, o.az, o.dh] ++
+        (if fixedPos then " fixed" else " " ++ renderAll (o.covNeu ++ o.covXyz))
+    | _, _ => s!"res pt {name} missing"
+  "\n".intercalate ([s!"res stat {st.redundancy} {showFloat st.aposterioriSd} {showFloat st.stdDeviation} {showFloat st.stdVariance}"] ++ pts)
 
 def role? : String → Option Role
   | "frm" => some .frm | "to" => some .to | "left" => some .left | "right" => some .right | "pt" => some .pt
@@ -300,6 +312,19 @@ def step (s : St) (line : String) : St × String :=
     | some o => ({ s with obs := s.obs ++ [o] }, "")
     | none => (s, "bad-op")
   | ["run"] => (s, runModel s)
+  | "adj" :: _alg :: defect :: rtr :: _n :: xs =>
+    match defect.toNat?, float? rtr, floats? xs with
+    | some d, some r, some x => ({ s with adjDefect := d, adjRtr := r, adjx := x }, "")
+    | _, _, _ => (s, "bad-op")
+  | "qxx" :: n :: vals =>
+    match n.toNat?, floats? vals with
+    | some n, some v => ({ s with qn := n, qxx := v }, "")
+    | _, _ => (s, "bad-op")
+  | ["ref", r] =>
+    match bool? r with
+    | some b => ({ s with refApriori := b }, "")
+    | none => (s, "bad-op")
+  | ["result"] => (s, runResult s)
   | ["ev", "S", "gnu-gama-data"] => (s, "")
   | ["ev", "S", "gnu-gama-data", "+atts"] => (s, "")
   | ["ev", "E", "gnu-gama-data"] => (s, "")
